@@ -66,6 +66,15 @@ pub fn oracle(f: u32, args: &Args, out: &Args) -> Option<(&'static str, String)>
     }
 }
 
+/// extra evaluation cost of a case on the model side, in bytes-of-text equivalents
+pub fn extra_weight(f: u32, args: &Args) -> usize {
+    match f {
+        // exhaustive range sweeps: ~0.2 ms per value in the VM
+        107 => args.first().map(|a| (a[1].saturating_sub(a[0]) as usize) * 10).unwrap_or(0),
+        _ => 0,
+    }
+}
+
 pub fn outcome_class(_f: u32, out: &Args) -> String {
     if out.len() == 1 && out[0] == vec![crate::PANIC] {
         return "panic".into();
